@@ -5,8 +5,8 @@ set -e
 cd "$(dirname "$0")"
 export CARGO_NET_OFFLINE=true CARGO_TARGET_DIR="$PWD/harness/target"
 mkdir -p work evidence replays lean/OZ/Audit
-BINS=$(python3 -c "from checks_config import PROPS; print(' '.join(sorted(set('--bin '+c['bin'] for c in PROPS.values()))))")
-LEANT=$(python3 -c "from checks_config import PROPS; print(' '.join(sorted(set(sum(([c['drv']]+c['props']+sum((g['props'] for g in ([c['gen']] if isinstance(c.get('gen'),dict) else c.get('gen',[]))),[]) for c in PROPS.values()),[])))))")
+BINS=$(python3 -c "from checks_config import PROPS; print(' '.join(sorted(set('--bin '+b for c in PROPS.values() for b in [c['bin']]+[a['bin'] for a in c.get('also',[])]))))")
+LEANT=$(python3 -c "from checks_config import PROPS; print(' '.join(sorted(set(sum(([c['drv']]+[a['drv'] for a in c.get('also',[])]+c['props']+sum((g['props'] for g in ([c['gen']] if isinstance(c.get('gen'),dict) else c.get('gen',[]))),[]) for c in PROPS.values()),[])))))")
 (cd harness && cargo build --release --offline $BINS 2>&1 | tail -3)
 (cd lean && lake build $LEANT 2>&1 | tail -3)
 echo setup-ok
